@@ -49,6 +49,13 @@ def herm_tree(gen, rnd, cplx):
     return dict(k="Kron", ms=[S, dict(k="Ident", dt=O.leaf_dts(B)[0], n=rnd.randint(1, 2))])
 
 
+def scal_in_prod(t):
+    """some Product node of the tree has a ScalarMul factor"""
+    if t["k"] == "Prod" and any(m["k"] == "Scal" for m in t["ms"]):
+        return True
+    return any(scal_in_prod(y) for y in (t.get("ms") or ([t["a"]] if isinstance(t.get("a"), dict) else [])))
+
+
 def run(ctx):
     import cola
     fnd = findings()
@@ -56,6 +63,10 @@ def run(ctx):
     c01_present = {f["flag"] for f in c01.findings() if f["present"]}
     rnd = ctx.rng
     gen = T.Gen(rnd)
+    from props import c05
+    c05_present = {f["flag"] for f in c05.findings() if f["present"]}
+    ag = c05.AGen(rnd, T.Gen(rnd, kinds=("Dense", "Diag", "Tri", "Tridiag", "Sum", "Prod", "Kron", "Transp", "Adj")))
+    ag.index_arrays = "sliced_index_array_cpu" not in c01_present
     gen.concat_equal = "concat_assert_wrong_axis" in c01_present
     gen.sparse_sorted = "sparse_unsorted_cols" in c01_present
     gen.mix_excl = ({"Sliced"} if ("sliced_drops_imag" in c01_present or "sliced_casts_operand" in c01_present) else set()) | \
@@ -73,7 +84,7 @@ def run(ctx):
             bad = []
 
             def walk(x):
-                if x["k"] == "Sliced" and (T.range_slice(x["rs"]) is None or T.range_slice(x["cs"]) is None):
+                if x["k"] == "Sliced" and (x.get("ia") or T.range_slice(x["rs"]) is None or T.range_slice(x["cs"]) is None):
                     bad.append(1)
                 for y in (x.get("ms") or ([x["a"]] if isinstance(x.get("a"), dict) else [])):
                     walk(y)
@@ -99,7 +110,7 @@ def run(ctx):
             mism.append(dict(oracle_fail=bool(bad), case=c, got=o, failed_clauses=bad, model_disagrees=(i in fs), part="left-product"))
 
     # ---- part 2: towers of .T / .H (depth <= 3 quick, <= 5 thorough), with and without true SelfAdjoint declarations
-    n2 = ctx.budget(300, 3000)
+    n2 = ctx.budget(500, 4000)
     tw_cases, tw_terms = [], []
     skipped_flag = 0
     tries = 0
@@ -107,7 +118,35 @@ def run(ctx):
         tries += 1
         cplx = rnd.random() < 0.45
         declared = rnd.random() < 0.4
-        if declared:
+        an = None
+        if rnd.random() < 0.3:
+            # annotated trees of property C05's generator: TRUE declarations (SelfAdjoint / PSD / Unitary / Stiefel) at any
+            # node, so that the self-adjoint shortcuts of transpose / adjoint / the default left product fire on inner
+            # and outer nodes of every kind (Kronecker, BlockDiag, Sliced, products, ...)
+            an, t = ag.node(rnd.randint(1, 3), rnd.random() < 0.6)
+            if an["x"] not in ("sliced", "kron", "bdiag") and rnd.random() < 0.5:
+                continue      # half of the stream has a root whose left product is the default one / a Sliced root
+            if "scalar_keeps_annotations" in c05_present and scal_in_prod(t):
+                continue      # recorded C05 finding: c*A keeps A's annotations whatever c is, which misleads the shortcuts
+            if "SelfAdjoint" in c05.truth(T.dense(t)) and rnd.random() < 0.7 and T.shape(t)[0] > 0:
+                an = dict(an, decl=sorted(set(an.get("decl", [])) | {"SelfAdjoint"}))
+            declared = False
+        elif rnd.random() < 0.12:
+            # a slice (python slices or integer index arrays; equal, reordered or one-axis-reversed selections) of a
+            # Hermitian parent declared SelfAdjoint: the annotation rule of Sliced decides whether .T/.H may shortcut
+            pt = herm_tree(gen, rnd, cplx)
+            pm = T.shape(pt)[0]
+            if pm < 2:
+                continue
+            k_ = rnd.randint(2, pm)
+            ia = ag.index_arrays and rnd.random() < 0.6
+            rs = rnd.sample(range(pm), k_) if ia else list(range(rnd.randint(0, pm - k_), pm))[:k_]
+            u_ = rnd.random()
+            cs = list(rs) if u_ < 0.35 else (rnd.sample(rs, k_) if ia else list(reversed(rs)))
+            an = dict(x="sliced", a=dict(x="leaf", tree=pt, decl=["SelfAdjoint"]), rs=rs, cs=cs, ia=ia, same=c05.same_sel(rs, cs, ia), decl=[])
+            t = dict(k="Sliced", a=pt, rs=rs, cs=cs, ia=ia)
+            declared = False
+        elif declared:
             t = herm_tree(gen, rnd, cplx)
         elif rnd.random() < 0.15:
             # operators whose declared dtype is real although they hold complex data (first term real): the region where
@@ -139,7 +178,7 @@ def run(ctx):
         if not region_ok(t, dx):
             continue
         try:
-            A = T.build(t)
+            A = c05.build(an) if an is not None else T.build(t)
             if declared:
                 A = cola.SelfAdjoint(A)
             sas, cur = [], A
@@ -159,13 +198,13 @@ def run(ctx):
             rm, rn = cur.shape
             X = O.rand_mat(rnd, rn, k, xc)
             XL = O.rand_mat(rnd, k, rm, xc)
-            case = dict(tree=t, declared=declared, word="".join(w), sas=sas, m=rm, n=rn, k=k, dx=dx, X=X, XL=XL)
+            case = dict(tree=t, declared=declared, annotated=(c05.coq(an) if an is not None else None), word="".join(w), sas=sas, m=rm, n=rn, k=k, dx=dx, X=X, XL=XL)
             Xn, XLn = O.np_of(X, rn, k, dx), O.np_of(XL, k, rm, dx)
             D = cur.to_dense()
             Y = cur @ Xn
             YL = XLn @ cur
             obs = dict(ok=True, shape=list(cur.shape), dense=T.to_gauss(D), res=T.to_gauss(Y), resl=T.to_gauss(YL),
-                       vec=T.to_gauss(cur @ Xn[:, 0]))
+                       vec=T.to_gauss(cur @ Xn[:, 0]), vecl=T.to_gauss(XLn[0, :] @ cur))
         except Exception as e:
             case = dict(tree=t, declared=declared, word="".join(w), m=m, n=n, k=k, dx=dx, X=[], XL=[])
             obs = dict(ok=False, err=type(e).__name__ + ": " + str(e)[:200])
@@ -204,6 +243,8 @@ def run(ctx):
                     bad.append("tower @ X")
                 if not np.array_equal(O.np_of(obs["resl"], case["k"], case["n"], "complex128"), XL @ D):
                     bad.append("X @ tower")
+                if "vecl" in obs and not np.array_equal(np.array([complex(*v) for v in obs["vecl"]]), XL[0, :] @ D):
+                    bad.append("x @ tower (1-D left operand)")
         if bad or i in fs2:
             mism.append(dict(oracle_fail=bool(bad), case=case, got=obs, failed_clauses=bad, model_disagrees=(i in fs2), part="tower"))
     distinct = len({core.digest(c["tree"]) for c in cases if O.nontrivial(c)}) + len({core.digest([c["tree"], c["word"], c["declared"]]) for c, _ in tw_cases})
